@@ -24,6 +24,7 @@ def _alarm(signum, frame):
 
 
 _ADAPTER = None
+_TIMEOUTS = [0]
 
 
 def _init_worker(adapter_mod, adapter_args, repo):
@@ -53,10 +54,13 @@ def _run_batch(lines):
             out['errors'].append('unparsable TLC line: %r' % (raw[:120],))
             continue
         limit = int(getattr(_ADAPTER, 'case_timeout', 20))
+        if _TIMEOUTS[0] >= 2:
+            limit = max(2, limit // 8)      # the tree under test hangs: do not spend the full limit on every further case
         signal.alarm(limit)
         try:
             r = _ADAPTER.run_case(case)
         except CaseTimeout:
+            _TIMEOUTS[0] += 1
             r = _ADAPTER.on_timeout(case)
         except Exception as e:
             signal.alarm(0)
@@ -93,6 +97,9 @@ class Engine:
                     'features': {}, 'errors': []}
 
     def feed(self, item):
+        if len(self.tot['div']) >= 300:
+            self.tot['skipped_after_many_divergences'] = self.tot.get('skipped_after_many_divergences', 0) + 1
+            return          # hundreds of divergences already: the verdict is clear, save the time
         self.buf.append(item)
         if len(self.buf) >= self.batch:
             self._flush()
